@@ -369,7 +369,7 @@ func c19Hostile(c *vh.Case) {
 		spec = spec[:300] + "…"
 	}
 	c.SetSpec(map[string]any{"gen": "hostile", "kind": kind, "in": spec, "len": len(in)})
-	msg, err := jsonrpc.DecodeMessage(in) // a panic is caught by the runner and reported as an SDK panic
+	msg, err := jsonrpc.DecodeMessage(in)      // a panic is caught by the runner and reported as an SDK panic
 	if err == nil && msg != nil && kind != 3 { // beyond encoding/json's nesting limit only "no panic" is required
 		if _, err := jsonrpc.EncodeMessage(msg); err != nil {
 			c.Violate("accepted-but-unencodable", "DecodeMessage accepted %q but the message cannot be encoded: %v", spec, err)
@@ -770,7 +770,9 @@ func c19Live(c *vh.Case) {
 	c.SetSpec(map[string]any{"gen": "live", "transport": kind, "version": version, "payloads": payloads[:6], "big_payload_bytes": big})
 	paged := r.Chance(1, 3)
 	sopts := &mcp.ServerOptions{
-		CompletionHandler: func(context.Context, *mcp.CompleteRequest) (*mcp.CompleteResult, error) { return &mcp.CompleteResult{}, nil },
+		CompletionHandler: func(context.Context, *mcp.CompleteRequest) (*mcp.CompleteResult, error) {
+			return &mcp.CompleteResult{}, nil
+		},
 	}
 	if paged {
 		sopts.PageSize = 2
@@ -790,7 +792,9 @@ func c19Live(c *vh.Case) {
 	server.AddTool(&mcp.Tool{Name: "error-nil", InputSchema: json.RawMessage(`{"type":"object"}`)}, func(context.Context, *mcp.CallToolRequest) (*mcp.CallToolResult, error) {
 		return &mcp.CallToolResult{IsError: true}, nil
 	})
-	server.AddPrompt(&mcp.Prompt{Name: "p"}, func(context.Context, *mcp.GetPromptRequest) (*mcp.GetPromptResult, error) { return &mcp.GetPromptResult{}, nil })
+	server.AddPrompt(&mcp.Prompt{Name: "p"}, func(context.Context, *mcp.GetPromptRequest) (*mcp.GetPromptResult, error) {
+		return &mcp.GetPromptResult{}, nil
+	})
 	server.AddResource(&mcp.Resource{URI: "file:///r", Name: "r"}, func(context.Context, *mcp.ReadResourceRequest) (*mcp.ReadResourceResult, error) {
 		return &mcp.ReadResourceResult{}, nil
 	})
@@ -925,7 +929,9 @@ func c19Live(c *vh.Case) {
 				server.AddTool(&mcp.Tool{Name: n, InputSchema: json.RawMessage(`{"type":"object"}`)}, func(context.Context, *mcp.CallToolRequest) (*mcp.CallToolResult, error) {
 					return &mcp.CallToolResult{}, nil
 				})
-				server.AddPrompt(&mcp.Prompt{Name: n}, func(context.Context, *mcp.GetPromptRequest) (*mcp.GetPromptResult, error) { return &mcp.GetPromptResult{}, nil })
+				server.AddPrompt(&mcp.Prompt{Name: n}, func(context.Context, *mcp.GetPromptRequest) (*mcp.GetPromptResult, error) {
+					return &mcp.GetPromptResult{}, nil
+				})
 				server.AddResource(&mcp.Resource{URI: "file:///" + n, Name: n}, func(context.Context, *mcp.ReadResourceRequest) (*mcp.ReadResourceResult, error) {
 					return &mcp.ReadResourceResult{}, nil
 				})
